@@ -28,8 +28,6 @@ _MON_ON = False
 
 # ---- builtins that must stay symbolic ------------------------------------------
 
-_FLOAT_TAGS = ('float', 'np.float64')
-_INT_TAGS = ('int',)
 
 
 def _unalias(c):
@@ -42,36 +40,54 @@ def _unalias(c):
     return c
 
 
+# type tag of a proxy -> the classes (by name) the real object would be an instance of
+_TAG_TYPES = {
+    'float': {'float', 'Real', 'Number', 'Complex'},
+    'int': {'int', 'Integral', 'Real', 'Number', 'Complex', 'Rational'},
+    'bool': {'bool', 'int', 'Integral', 'Real', 'Number'},
+    'np.float64': {'float', 'float64', 'floating', 'number', 'generic', 'Real', 'Number', 'Complex'},
+    'np.float32': {'float32', 'floating', 'number', 'generic', 'Real', 'Number', 'Complex'},
+    'np.float16': {'float16', 'floating', 'number', 'generic', 'Real', 'Number', 'Complex'},
+    'np.int64': {'int64', 'integer', 'signedinteger', 'number', 'generic', 'Integral', 'Real', 'Number'},
+    'np.int32': {'int32', 'integer', 'signedinteger', 'number', 'generic', 'Integral', 'Real', 'Number'},
+    'np.uint16': {'uint16', 'integer', 'unsignedinteger', 'number', 'generic', 'Integral', 'Real', 'Number'},
+}
+
+
+def _type_name(c):
+    if isinstance(c, symnp._DType):
+        return c.name
+    return getattr(c, '__name__', None)
+
+
 def sym_isinstance(obj, cls):
     if isinstance(cls, tuple):
-        cls = tuple(_unalias(c) for c in cls)
+        flat = []
+        for c in cls:
+            flat.extend(c if isinstance(c, tuple) else (c,))
+        classes = tuple(_unalias(c) for c in flat)
     else:
-        cls = _unalias(cls)
+        classes = (_unalias(cls),)
     if isinstance(obj, Sym):
-        classes = cls if isinstance(cls, tuple) else (cls,)
+        if isinstance(obj, SymBool):
+            tag = 'bool'
+        elif isinstance(obj, SymBits):
+            tag = 'np.float64'
+        else:
+            tag = getattr(obj, 'tag', 'float')
+        names = _TAG_TYPES.get(tag, set())
         for c in classes:
             if c is object:
                 return True
-            if c is float and isinstance(obj, (SymReal, SymFP)) and obj.tag in _FLOAT_TAGS:
+            if _type_name(c) in names:
                 return True
-            if c is float and isinstance(obj, SymBits):
-                return True
-            if c is int and isinstance(obj, SymInt) and obj.tag in _INT_TAGS:
-                return True
-            if c is bool and isinstance(obj, SymBool):
-                return True
-            if c in (numbers.Number, numbers.Real, numbers.Complex) and isinstance(obj, (SymInt, SymReal, SymFP)):
-                return True
-            if c is numbers.Integral and isinstance(obj, SymInt):
-                return True
-            if isinstance(c, tuple) and sym_isinstance(obj, c):
-                return True
-            if c is symnp.floating and isinstance(obj, (SymReal, SymFP)):
-                return obj.tag.startswith('np.float') or obj.tag == 'float'
         return False
-    if isinstance(cls, symnp._DType) or (isinstance(cls, tuple) and any(isinstance(c, symnp._DType) for c in cls)):
-        return False
-    return isinstance(obj, cls)
+    # concrete python objects: numpy marker classes / dtypes never match a python scalar
+    real = tuple(c for c in classes if isinstance(c, type) and not issubclass(c, symnp.generic))
+    if isinstance(obj, bool):
+        real_ok = isinstance(obj, real) if real else False
+        return real_ok
+    return isinstance(obj, real) if real else False
 
 
 def _quiet_print(*a, **k):
